@@ -249,3 +249,50 @@ func TestC10RetryPause(t *testing.T) {
 		}
 	}
 }
+
+// TestC10HelperLateWrite: GetTimeout / GetDeadline let the exchange go on behind the caller (documented). A
+// dst buffer the caller passed is the caller's again once the call has returned errTimeout: the late
+// response must not be read into it ("the response returned to a caller is the response to that caller's
+// request" also for the next call that is given the same buffer).
+func TestC10HelperLateWrite(t *testing.T) {
+	rec := ev.New("helper-late-write")
+	for _, lateMs := range []int{150, 300} {
+		ln, err := net.Listen("tcp", "127.0.0.1:0")
+		if err != nil {
+			t.Fatalf("listen: %v", err)
+		}
+		go func() {
+			for {
+				c, err := ln.Accept()
+				if err != nil {
+					return
+				}
+				go func(c net.Conn) {
+					defer c.Close()
+					buf := make([]byte, 4096)
+					c.Read(buf) //nolint:errcheck
+					time.Sleep(time.Duration(lateMs) * time.Millisecond)
+					c.Write([]byte("HTTP/1.1 200 OK\r\nContent-Length: 16\r\n\r\nSLOW-SLOW-SLOW-A")) //nolint:errcheck
+				}(c)
+			}
+		}()
+		hc := http1.NewHostClient(&http1.ClientOptions{Dialer: standard.NewDialer(), MaxConns: 4, DialTimeout: time.Second}).(*http1.HostClient)
+		hc.Addr = ln.Addr().String()
+		dst := make([]byte, 0, 64)
+		_, _, callErr := hc.GetTimeout(context.Background(), dst, "http://example.com/slow", 60*time.Millisecond)
+		rec.Case(true, ev.HashString(fmt.Sprint(lateMs)), fmt.Sprintf("response-%dms-late", lateMs))
+		if callErr == nil {
+			ln.Close()
+			continue // the machine was slow enough for the response to arrive in time: no verdict
+		}
+		mine := dst[:16]
+		copy(mine, "caller-owned-dat")
+		time.Sleep(time.Duration(lateMs+250) * time.Millisecond)
+		ln.Close()
+		if string(mine) != "caller-owned-dat" {
+			msg := fmt.Sprintf("GetTimeout returned %v; %d ms later the caller's buffer, reused by the caller, reads %q: the exchange left behind wrote its response into memory the call had handed back", callErr, lateMs+250, mine)
+			ev.Fail(prop, "helper-late-write", map[string]interface{}{"late_ms": lateMs}, msg)
+			t.Errorf("%s", msg)
+		}
+	}
+}
